@@ -399,8 +399,8 @@ def check(ctx: Ctx) -> None:
         "over string shapes (literals, integer atoms, escaped/raw text atoms, alternatives, loops); obligations: "
         "every alternative starts with '{\\rtf1', ends with '}', has brace delta 0 with prefix depth >= 1 in between. "
         "R01.2: symbolic counts of \\cellx and \\cell in the row emitter and the table encoders are equal polynomials; "
-        "row control words are written only by the row emitter. R01.3: lexical fold (control word / parameter / text "
-        "adjacency) over the document shapes. R01.4: element type of each attribute fed to a model field is "
+        "row control words occur as literals only in functions entered by the abstract run of the row emitter (those the pairing argument covers). R01.3: lexical fold (control word / parameter / text "
+        "adjacency) over the document shapes. R01.4: element type of each attribute fed to a model field (keywords, incl. **mappings built from the source's literal tables) is "
         "assignable to that field. R01.5: results of optional-returning functions are tested before None-intolerant "
         "use on the encode call graph. R01.6: validator table = emitter table (see C19).")
     ctx.assume("user text contains no unbalanced raw RTF metacharacters (the property's input restriction)")
